@@ -39,6 +39,7 @@ import (
 	"github.com/foxcpp/maddy/internal/verifshim/vh"
 	"golang.org/x/crypto/argon2"
 	"golang.org/x/crypto/bcrypt"
+	"golang.org/x/net/idna"
 	"golang.org/x/text/secure/precis"
 	"golang.org/x/text/unicode/norm"
 )
@@ -1312,6 +1313,12 @@ func c14RunScn(scn *c14Scn) (res c14Result) {
 			right := okName && exists && c14SamePw(rf.scheme, o.p, rf.pw)
 			authzOK := o.kind == 'l' || o.authzid == "" || o.authzid == o.u
 			want := right && authzOK && (o.kind == 'p' || scn.login)
+			if o.u != strings.TrimSpace(o.u) || strings.ContainsAny(o.u, "\x00\u200b\ufeff\u200e\u2060") {
+				stat(fmt.Sprintf("auth.name-in-white-space-or-controls.%s.resolved-%v.%s", mech, okName && exists, r.res))
+			}
+			if o.p != strings.TrimSpace(o.p) {
+				stat(fmt.Sprintf("auth.password-in-white-space.%s.current-%v.%s", mech, right, r.res))
+			}
 			switch {
 			case !okName:
 				stat("auth.name-unresolved")
@@ -1329,8 +1336,8 @@ func c14RunScn(scn *c14Scn) (res c14Result) {
 				} else if !want {
 					viol("C14/auth-accepts-wrong-password", "op %d: %s %q/%x succeeded; resolved account %q (resolved=%v exists=%v)", i, mech, o.u, o.p, k, okName, exists)
 				}
-				if r.cbCount != 1 || r.data.Password != o.p {
-					viol("C14/success-callback", "op %d: callback ran %d times, password passed on equal=%v", i, r.cbCount, r.data.Password == o.p)
+				if r.cbCount != 1 || r.data.Password != o.p || (authzOK && (r.identity != o.u || r.data.Username != o.u)) {
+					viol("C14/success-callback", "op %d: callback ran %d times, password passed on equal=%v, identity %q and user name %q reported for the supplied name %q", i, r.cbCount, r.data.Password == o.p, r.identity, r.data.Username, o.u)
 				}
 			} else {
 				if want {
@@ -1347,7 +1354,9 @@ func c14RunScn(scn *c14Scn) (res c14Result) {
 				stat("auth.authzid-mismatch")
 			}
 			// same credentials through the other mechanism: same decision, same identity
-			if authzOK && scn.login {
+			if strings.Contains(o.u, "\x00") || strings.Contains(o.p, "\x00") {
+				stat("mech-not-compared.nul-cannot-be-carried-by-plain")
+			} else if authzOK && scn.login {
 				sh := c14Exchange(sys.s, other, "", o.u, o.p, i%2 == 1)
 				if (sh.res == "ok") != (r.res == "ok") || (r.res == "ok" && sh.identity != r.identity) {
 					viol("C14/plain-login-disagree", "op %d: %s gives %s (identity %q), %s gives %s (identity %q) for user %q", i, mech, r.res, r.identity, other, sh.res, sh.identity, o.u)
@@ -1410,6 +1419,55 @@ func c14Foldable(s string) bool {
 var c14BadNames = []string{"", "a b", "Ⅳ", "ﬁsh", "\u0001x", "x­y", "ſam", "a‍b"}
 var c14Targets = []string{"acct1", "acct2", "shared", "alice", "bob"}
 
+// the name of an account inside white space, control characters and other wrapping a sloppy client (or a "helpful" server)
+// might add or strip: each of these is ANOTHER user name. PRECIS refuses most of them (no account), a few are ordinary
+// names of other accounts ("alice."); the reference resolution decides, never the spelling.
+var c14Decorations = []struct{ pre, suf, cls string }{
+	{"", " ", "space"}, {" ", "", "space"}, {" ", " ", "space"}, {"", "  ", "space"},
+	{"", "\t", "tab"}, {"\t", "", "tab"},
+	{"", "\r\n", "crlf"}, {"", "\n", "lf"}, {"", "\r", "cr"}, {"\n", "", "lf"}, {"\r\n", "\r\n", "crlf"}, {" ", "\r\n", "crlf"},
+	{"", "\u00a0", "nbsp"}, {"\u00a0", "", "nbsp"},
+	{"", "\u3000", "ideographic-space"}, {"\u3000", "", "ideographic-space"},
+	{"", "\u0085", "other-unicode-space"}, {"", "\u2028", "other-unicode-space"}, {"\u2003", "", "other-unicode-space"}, {"", "\u202f", "other-unicode-space"}, {"", "\u1680", "other-unicode-space"},
+	{"", "\u200b", "zero-width"}, {"\ufeff", "", "zero-width"}, {"", "\u200e", "zero-width"}, {"\u2060", "", "zero-width"},
+	{"", "\x0b", "control"}, {"", "\x0c", "control"}, {"", "\x7f", "control"}, {"\x1b", "", "control"}, {"", "\x08", "control"},
+	{"\"", "\"", "wrapped"}, {"<", ">", "wrapped"}, {"'", "'", "wrapped"}, {"", ".", "wrapped"}, {"", ",", "wrapped"}, {"", ";", "wrapped"}, {"", "=", "wrapped"},
+	{"", "\x00", "nul"}, {"\x00", "", "nul"}, {"", "\x00\x00", "nul"},
+}
+
+func c14Decorate(r *vh.Rng, name string, nulOK bool) (string, string) {
+	for {
+		d := c14Decorations[r.Intn(len(c14Decorations))]
+		if d.cls == "nul" && !nulOK {
+			continue
+		}
+		return d.pre + name + d.suf, d.cls
+	}
+}
+
+// a password inside white space is another password
+func c14DecoratePw(r *vh.Rng, p string) string {
+	switch r.Intn(8) {
+	case 0:
+		return p + " "
+	case 1:
+		return " " + p
+	case 2:
+		return p + "\r\n"
+	case 3:
+		return p + "\n"
+	case 4:
+		return "\t" + p
+	case 5:
+		return p + "\u00a0"
+	default:
+		if t := strings.TrimSpace(p); t != p {
+			return t
+		}
+		return " " + p + " "
+	}
+}
+
 func c14Fullwidth(s string) string {
 	var b strings.Builder
 	for _, r := range s {
@@ -1425,6 +1483,13 @@ func c14Fullwidth(s string) string {
 func c14Variant(r *vh.Rng, s string) (string, string) {
 	if s == "" {
 		return s, "exact"
+	}
+	// an internationalized domain written in A-labels: the same e-mail address (only the e-mail branch of the
+	// normalisation functions brings it back to the U-label form the account was created under)
+	if i := strings.LastIndex(s, "@"); i >= 0 && r.Chance(40) {
+		if a, err := idna.ToASCII(s[i+1:]); err == nil && a != s[i+1:] {
+			return s[:i+1] + a, "a-label-domain"
+		}
 	}
 	switch r.Intn(9) {
 	case 8:
@@ -1463,7 +1528,8 @@ var c14PwClasses = []struct {
 	w   int
 	pws []string
 }{
-	{30, []string{"p", "password", "Password", "password ", "pass:word", "hunter2"}},
+	{25, []string{"p", "password", "Password", "password ", "pass:word", "hunter2"}},
+	{5, []string{" padded ", "line\r\n", "\ttab", "nbsp\u00a0", " password", "password\n"}},
 	{8, []string{""}},
 	{17, []string{"pässwörd", "пароль", "密码", "páss", "ｐａｓｓ"}},
 	{5, []string{"\xff\xfe\x80", "caf\xe9"}},
@@ -1712,6 +1778,11 @@ func c14Gen(r *vh.Rng, maxOps int) *c14Scn {
 	mgmtName := func() string {
 		if len(accts) > 0 && r.Chance(65) {
 			v, _ := c14Variant(r, accts[r.Intn(len(accts))])
+			if r.Chance(5) { // management is refused for such a name: it is no account name
+				var cls string
+				v, cls = c14Decorate(r, v, true)
+				scn.genStats = append(scn.genStats, "mgmt.gen.decorated-name."+cls)
+			}
 			return v
 		}
 		return anyName()
@@ -1750,7 +1821,35 @@ func c14Gen(r *vh.Rng, maxOps int) *c14Scn {
 		sort.Strings(ks)
 		return ks
 	}
-	authCreds := func() (string, string) {
+	var authCredsPlain func() (string, string)
+	// user name and password of a login; nulOK: the mechanism can carry a NUL inside the user name (LOGIN can, PLAIN cannot)
+	authCreds := func(nulOK bool) (string, string) {
+		ks := curKeys()
+		if len(ks) > 0 && r.Chance(17) {
+			// the name of an existing account (a spelling that reaches it) inside white space / control characters / wrapping,
+			// mostly with the account's CURRENT password
+			k := ks[r.Intn(len(ks))]
+			u, cls := c14Decorate(r, reach[k][r.Intn(len(reach[k]))], nulOK)
+			scn.genStats = append(scn.genStats, "auth.gen.decorated-name."+cls)
+			p := cur[k]
+			if strings.Contains(p, "\x00") || r.Chance(25) {
+				p = pw(false)
+			}
+			return u, p
+		}
+		u, p := authCredsPlain()
+		switch y := r.Intn(100); {
+		case y < 3:
+			var cls string
+			u, cls = c14Decorate(r, u, nulOK)
+			scn.genStats = append(scn.genStats, "auth.gen.decorated-name."+cls)
+		case y < 9:
+			p = c14DecoratePw(r, p)
+			scn.genStats = append(scn.genStats, "auth.gen.decorated-password")
+		}
+		return u, p
+	}
+	authCredsPlain = func() (string, string) {
 		ks := curKeys()
 		x := r.Intn(100)
 		if pair != nil && r.Chance(22) { // one member of the pair with the password of the other
@@ -1843,6 +1942,14 @@ func c14Gen(r *vh.Rng, maxOps int) *c14Scn {
 			} else {
 				o.u = reach[kk][r.Intn(len(reach[kk]))]
 				if r.Chance(12) && o.inner == 'p' {
+					o.authzid = o.u
+				}
+			}
+			if r.Chance(8) {
+				var cls string
+				o.u, cls = c14Decorate(r, o.u, o.inner != 'p')
+				scn.genStats = append(scn.genStats, "auth.gen.decorated-name."+cls)
+				if o.authzid != "" {
 					o.authzid = o.u
 				}
 			}
@@ -1998,7 +2105,7 @@ func c14Gen(r *vh.Rng, maxOps int) *c14Scn {
 				}
 			}
 		case x < 69:
-			u, p := authCreds()
+			u, p := authCreds(false)
 			o := c14Op{kind: 'p', u: u, p: p}
 			switch y := r.Intn(100); {
 			case y < 60:
@@ -2014,7 +2121,7 @@ func c14Gen(r *vh.Rng, maxOps int) *c14Scn {
 			}
 			scn.ops = append(scn.ops, o)
 		case x < 90:
-			u, p := authCreds()
+			u, p := authCreds(true)
 			scn.ops = append(scn.ops, c14Op{kind: 'l', u: u, p: p})
 		case x < 95:
 			ks := curKeys()
@@ -2033,6 +2140,11 @@ func c14Gen(r *vh.Rng, maxOps int) *c14Scn {
 			if len(ks) > 0 && r.Chance(60) {
 				k := ks[r.Intn(len(ks))]
 				o.u, _ = c14Variant(r, k)
+				if r.Chance(12) {
+					var cls string
+					o.u, cls = c14Decorate(r, o.u, true)
+					scn.genStats = append(scn.genStats, "auth.gen.decorated-name."+cls)
+				}
 				if r.Chance(70) {
 					o.p = cur[k]
 					if r.Chance(25) {
